@@ -43,15 +43,20 @@ class WorkerFailure(Exception):
 
 
 class SimFuture(object):
-    def __init__(self, fn, args, idx):
+    def __init__(self, fn, args, idx, late_pickle=False):
         self.fn = fn
-        self.args_pickled = pickle.dumps(args, protocol=pickle.HIGHEST_PROTOCOL)  # arguments cross a process boundary
+        # arguments cross a process boundary.  A real pool stores a REFERENCE at submit and a feeder thread pickles it some time
+        # later - before or after the caller's next statements; the schedule decides which (late_pickle).
+        self.args = args
+        self.args_pickled = None if late_pickle else pickle.dumps(args, protocol=pickle.HIGHEST_PROTOCOL)
         self.idx = idx
         self._res = None
         self._exc = None
         self.done = False
 
     def run(self):
+        if self.args_pickled is None:
+            self.args_pickled = pickle.dumps(self.args, protocol=pickle.HIGHEST_PROTOCOL)
         args = pickle.loads(self.args_pickled)
         try:
             res = self.fn(*args)
@@ -92,7 +97,10 @@ class SimExecutor(object):
         return False
 
     def submit(self, fn, *args):
-        f = SimFuture(fn, args, len(self.futures))
+        late = bool(self.schedule.get("late_pickle"))
+        if late:
+            self.stats["arguments_pickled_after_submit_returned"] = self.stats.get("arguments_pickled_after_submit_returned", 0) + 1
+        f = SimFuture(fn, args, len(self.futures), late_pickle=late)
         self.futures.append(f)
         return f
 
